@@ -8,10 +8,12 @@ mod engine;
 mod gen;
 mod p01;
 mod p02;
+mod p06;
 mod p07;
 mod p08;
 mod p09;
 mod p10;
+mod p14;
 mod pipe;
 mod rows;
 mod univ;
@@ -27,10 +29,12 @@ fn modules() -> Vec<Module> {
     vec![
         ("C01", p01::run_all, p01::checks),
         ("C02", p02::run_all, p02::checks),
+        ("C06", p06::run_all, p06::checks),
         ("C07", p07::run_all, p07::checks),
         ("C08", p08::run_all, p08::checks),
         ("C09", p09::run_all, p09::checks),
         ("C10", p10::run_all, p10::checks),
+        ("C14", p14::run_all, p14::checks),
     ]
 }
 
